@@ -163,12 +163,27 @@ func (c *Conn) Write(p []byte) (int, error) {
 		if !stalled {
 			break
 		}
+		// a blocked write ends when the peer takes data again, when this end is closed, or when its write deadline passes
+		c.self.mu.Lock()
+		wdl := c.self.wdl
+		c.self.mu.Unlock()
+		var tm *time.Timer
+		if !wdl.IsZero() {
+			tm = time.AfterFunc(time.Until(wdl), c.self.wsignal)
+		}
 		<-c.self.wnotify // a channel receive: a durable block for testing/synctest
+		if tm != nil {
+			tm.Stop()
+		}
 		c.self.mu.Lock()
 		closed := c.self.closed
+		late := !c.self.wdl.IsZero() && !time.Now().Before(c.self.wdl)
 		c.self.mu.Unlock()
 		if closed {
 			return 0, net.ErrClosed
+		}
+		if late {
+			return 0, os.ErrDeadlineExceeded
 		}
 	}
 	c.deliver(p)
@@ -289,6 +304,7 @@ func (c *Conn) SetWriteDeadline(t time.Time) error {
 		return net.ErrClosed
 	}
 	c.self.wdl = t
+	c.self.wsignal()
 	return nil
 }
 
